@@ -410,24 +410,51 @@ struct FamilyCtx<'a> {
     problems: Vec<String>,
 }
 
+/// The generic part is kept minimal (hundreds of instantiations): it only collects what depends
+/// on `T`; the comparisons are made by [`check_member_facts`].
 fn check_member<T>(ctx: &mut FamilyCtx) {
-    ctx.count += 1;
     let host = HostTypeResolver.type_info::<T>();
+    let table = ctx.table;
+    let round_trip = ctx.round_trip;
+    let typed = [
+        catch_unwind(AssertUnwindSafe(|| table.type_info::<T>())).ok(),
+        catch_unwind(AssertUnwindSafe(|| round_trip.type_info::<T>())).ok(),
+    ];
+    check_member_facts(
+        ctx,
+        host,
+        std::mem::size_of::<T>(),
+        std::mem::align_of::<T>(),
+        std::any::type_name::<T>(),
+        typed,
+    );
+}
+
+fn check_member_facts(
+    ctx: &mut FamilyCtx,
+    host: TypeInfo,
+    size: usize,
+    align: usize,
+    full_name: &str,
+    typed: [Option<TypeInfo>; 2],
+) {
+    ctx.count += 1;
     let real = TypeInfo {
         name: host.name.clone(),
-        size: std::mem::size_of::<T>(),
-        align: std::mem::align_of::<T>(),
+        size,
+        align,
     };
     if host != real {
         ctx.problems.push(format!("HostTypeResolver answers {:?} for a type whose real facts are {:?}", host, real));
     }
-    for (which, t) in [("table", ctx.table), ("json round trip", ctx.round_trip)] {
-        match catch_unwind(AssertUnwindSafe(|| t.type_info::<T>())) {
-            Ok(info) if info == real => {}
-            Ok(info) => ctx.problems.push(format!("{}: type_info::<{}>() = {:?}, registered {:?}", which, real.name, info, real)),
-            Err(_) => ctx.problems.push(format!("{}: type_info::<{}>() panicked for a registered type", which, real.name)),
+    let tables = [("table", ctx.table), ("json round trip", ctx.round_trip)];
+    for (i, (which, t)) in tables.iter().enumerate() {
+        match &typed[i] {
+            Some(info) if *info == real => {}
+            Some(info) => ctx.problems.push(format!("{}: type_info::<{}>() = {:?}, registered {:?}", which, real.name, info, real)),
+            None => ctx.problems.push(format!("{}: type_info::<{}>() panicked for a registered type", which, real.name)),
         }
-        for spelling in [real.name.clone(), std::any::type_name::<T>().to_owned(), real.name.replace(' ', ""), real.name.replace(' ', "  ")] {
+        for spelling in [real.name.clone(), full_name.to_owned(), real.name.replace(' ', ""), real.name.replace(' ', "  ")] {
             match catch_unwind(AssertUnwindSafe(|| t.dynamic_type_info(&spelling))) {
                 Ok(d) if d.info == real && d.allow_uninit == ctx.uninit => {}
                 Ok(d) => ctx.problems.push(format!("{}: dynamic_type_info({:?}) = {:?}/{}, registered {:?}/{}", which, spelling, d.info, d.allow_uninit, real, ctx.uninit)),
